@@ -70,6 +70,48 @@ def corpus():
     return cs
 
 
+JPEG_SOURCES = ["file", "pil", "pil-file"]
+
+
+def jpeg_case(img, scale, source, alpha=None, **kw):
+    """A single render of a JPEG source (lazy, configurable decoder) at 1/scale of its pixel size, handed over
+    as a file path / a PIL image decoding lazily from memory / a file-backed PIL image not loaded yet.  The
+    expected pixels are those of a FRESH FULL decode, converted and BOX-resampled to render resolution."""
+    w, h = img["size"]
+    c = {"style": "block", "cells": [w // scale, h // (2 * scale)], "img": dict(img), "alpha": alpha, "args": {},
+         "on_kitty": False, "term_bg": [18, 52, 86], "source": source, "want_source_pixels": True, "src_resampled": True,
+         "identity": True, "lazy_scale": scale}
+    c.update(kw)
+    return c
+
+
+def gen_jpeg_case(rng, big=False):
+    img = S.gen_lazy_img(rng, big)
+    while "pages" in img:
+        img = S.gen_lazy_img(rng, big)
+    w, h = img["size"]
+    scale = rng.choice([d for d in (1, 2, 2, 4, 4, 8) if w % d == 0 and h % (2 * d) == 0])
+    c = jpeg_case(img, scale, rng.choice(JPEG_SOURCES), rng.choice([None, None, "#", "#102030", 0.5, 0.0]),
+                  term_bg=rng.choice([None, [0, 0, 0], [18, 52, 86]]), on_kitty=rng.random() < 0.2,
+                  args={"split_cells": rng.random() < 0.2})
+    if rng.random() < 0.15:  # not a whole fraction of the pixel size
+        c["cells"] = [rng.randint(1, w), rng.randint(1, h // 2)]
+        c["lazy_scale"] = 0
+    return c
+
+
+def jpeg_corpus():
+    cs = []
+    rgb = {"mode": "RGB", "size": [16, 16], "seed": 61, "kind": "random", "alphas": [255], "container": "jpeg", "quality": 95}
+    for source in JPEG_SOURCES:
+        for scale in (1, 2, 4, 8):
+            cs.append(jpeg_case(rgb, scale, source))
+    cs.append(jpeg_case(dict(rgb, mode="L", seed=62, kind="runs", quality=90), 2, "pil-file", 0.5))
+    cs.append(jpeg_case(dict(rgb, mode="CMYK", seed=63, size=[16, 8], quality=100), 4, "file", "#102030"))
+    cs.append(jpeg_case(dict(rgb, seed=64, size=[32, 16], kind="bands", subsampling=0), 8, "pil", "#"))
+    return cs
+
+
 def composite(s, a, d):
     """Pillow's alpha_composite of an (s, alpha a) channel over an opaque channel d: the exact
     value (s*a + d*(255-a)) / 255 rounded to nearest (never a tie: 255 is odd) — established by
@@ -202,7 +244,9 @@ def run_sequences(sequences, failures, mismatches, distinct, judged):
     verdicts, simpl, errors = judged
     sh = {"sequences": len(sequences), "requests": 0, "block_renders": 0, "at_render_resolution": 0, "length": {}, "via": {},
           "alpha": {}, "instances": {}, "cls": {}, "source": {}, "multi_frame_instances": 0, "frame_modes": {},
-          "repeated_colour_and_size": 0, "equal_request_pairs": 0, "format_route_colour_requests": 0}
+          "repeated_colour_and_size": 0, "equal_request_pairs": 0, "format_route_colour_requests": 0,
+          "off_resolution_judged_against_resampled_full_decode": 0, "lazy_decoder_instances": {}, "caller_images_examined": 0,
+          "lazy_thumbnail_then_pixel_size": 0}
     for c, v, r in zip(sequences, verdicts, simpl):
         sh["length"][len(c["session"])] = sh["length"].get(len(c["session"]), 0) + 1
         sh["instances"][len(c["instances"])] = sh["instances"].get(len(c["instances"]), 0) + 1
@@ -210,6 +254,20 @@ def run_sequences(sequences, failures, mismatches, distinct, judged):
             sh["cls"][inst["cls"]] = sh["cls"].get(inst["cls"], 0) + 1
             sh["source"][inst["source"]] = sh["source"].get(inst["source"], 0) + 1
             sh["multi_frame_instances"] += "pages" in inst["img"]
+            if inst["img"].get("container") in ("jpeg", "mpo"):
+                key = f"{inst['img']['container']}/{inst['source']}"
+                sh["lazy_decoder_instances"][key] = sh["lazy_decoder_instances"].get(key, 0) + 1
+        sh["caller_images_examined"] += len(r.get("caller_sources") or [])
+        shrunk = set()
+        for q in v["reqs"]:  # a render below the pixel size followed by one AT the pixel size, same lazily decoded instance
+            sr = q.get("sr")
+            inst = c["instances"][c["session"][q["step"]]["inst"]]
+            if sr and "out" in sr and inst["img"].get("container") in ("jpeg", "mpo"):
+                k = c["session"][q["step"]]["inst"]
+                if sr.get("at_resolution") and k in shrunk:
+                    sh["lazy_thumbnail_then_pixel_size"] += 1
+                elif sr.get("resampled"):
+                    shrunk.add(k)
         seen_colour, keys = {}, {}
         for st in c["session"]:
             sh["requests"] += 1
@@ -231,6 +289,7 @@ def run_sequences(sequences, failures, mismatches, distinct, judged):
                 keys[k] = keys.get(k, 0) + 1
         sh["block_renders"] += v["renders"]
         sh["at_render_resolution"] += v["at_resolution"]
+        sh["off_resolution_judged_against_resampled_full_decode"] += v["resampled"]
         if v["renders"] >= 2 and v["at_resolution"] >= 1:
             distinct.add(core.sig(["sequence", c]))
         if S.failing(v):
@@ -267,6 +326,10 @@ def run(ctx):
         # sequences use their own stream (derived from the seed): the single-render cases of a seed stay what they were
         srng = __import__("random").Random(rng.getrandbits(64))
         sequences = S.corpus() + [S.gen_sequence(srng) for _ in range(26 if ctx.quick else 1200)]
+        # sources behind a lazy / configurable decoder (JPEG, MPO): their own stream as well
+        jrng = __import__("random").Random(rng.getrandbits(64))
+        cases += jpeg_corpus() + [gen_jpeg_case(jrng, not ctx.quick) for _ in range(14 if ctx.quick else 400)]
+        sequences += [S.gen_lazy_sequence(jrng, not ctx.quick) for _ in range(10 if ctx.quick else 400)]
     # one run of the implementation driver for everything, then the three comparisons inside Coq side by side
     # (all of it is subprocess-bound)
     todo = interleave(cases, sequences)
@@ -294,9 +357,13 @@ def run(ctx):
     for i, c in enumerate(cases):
         r = impl[i]
         if rd_codes.get(i, 0) >= 2:
-            failures.append({"signature": core.sig(["identity", c["img"], c["cells"], c["alpha"], c.get("term_bg")]),
+            lazy = (f"[{c['img'].get('container')} source handed over as {c.get('source', 'pil')}, rendered at "
+                    f"{'1/%d' % c['lazy_scale'] if c.get('lazy_scale') else 'another fraction'} of its pixel size; expected pixels: "
+                    "a fresh FULL decode, converted and BOX-resampled to render resolution] ") if c.get("src_resampled") else ""
+            failures.append({"signature": core.sig(["identity", c["img"], c["cells"], c["alpha"], c.get("term_bg")]
+                                                   + ([c.get("source")] if c.get("src_resampled") else [])),
                              "what": f"source pixels are not shown as the property demands (render-data check code {rd_codes[i]}): "
-                                     f"{identity_check(c, r)} — {R.describe(c)}", "replay": {"case": c}})
+                                     f"{lazy}{identity_check(c, r)} — {R.describe(c)}", "replay": {"case": c}})
         elif rd_codes.get(i, 0) == 1:
             mismatches.append({"case": c, "code": 1, "explain": f"_get_render_data differs from RenderData.render_px: {identity_check(c, r)}"})
         hist["mode"][c["img"]["mode"]] = hist["mode"].get(c["img"]["mode"], 0) + 1
@@ -322,6 +389,18 @@ def run(ctx):
                              "what": "disabling transparency does not ignore alpha: the render differs from the render of the "
                                      f"same image without its alpha channel — {R.describe(c)}", "replay": {"case": c}})
         hist["alpha_ignored_pairs"] = hist.get("alpha_ignored_pairs", 0) + ("noalpha_same" in r)
+        if c.get("src_resampled"):
+            lz = hist.setdefault("lazy_decoder_sources", {"renders": 0, "source": {}, "scale": {}, "mode": {}})
+            lz["renders"] += 1
+            for key, val in (("source", c.get("source", "pil")), ("scale", f"1/{c.get('lazy_scale')}" if c.get("lazy_scale") else "other"),
+                             ("mode", c["img"]["mode"])):
+                lz[key][val] = lz[key].get(val, 0) + 1
+            if "src" not in r and "error" not in r:
+                errors.append(f"lazy-decoder case without expected pixels: {R.describe(c)}")
+        if r.get("caller_source"):
+            failures.append({"signature": core.sig(["caller-source", c["img"], c["cells"], c.get("source")]),
+                             "what": f"after ONE render {r['caller_source']}: the library reconfigured / degraded a caller-supplied "
+                                     f"image — source={c.get('source', 'pil')} {R.describe(c)}", "replay": {"case": c}})
         for name, chk in (("uniform", uniform_check),):
             msg = chk(c, r)
             if msg:
@@ -345,7 +424,8 @@ def run(ctx):
                      "RenderData.render_px (model) == data returned by _get_render_data at render resolution, "
                      "RenderData.src_expect (specification) == what those data show; "
                      "BlockSeq.bs_run (sequence model: the i-th output is the render of the i-th request alone) == the block "
-                     "renders handed out during sequences of requests over several instances",
+                     "renders handed out during sequences of requests over several instances, the world being the FULL fresh decode "
+                     "of each source (BlockSeqSrc.full_src: at render resolution as decoded, off it converted + BOX-resampled)",
         "evaluations": len(cases) + hist.get("sequences", {}).get("block_renders", 0),
         "distinct_nontrivial": len(distinct),
         "rule": "corpus (9 modes x 3 alpha settings + hand-made run/alpha/background cases) + random images generated for run "
@@ -366,7 +446,16 @@ def run(ctx):
                 "thresholds; route _renderer / format / str / iterator; seek; size change (20 %); terminal background or kitty "
                 "flag changed for one request).  Every block render is judged by qcheck inside Coq: single-render check, source "
                 "pixels of the frame selected by the history (exact composite), equal requests show equal pixels.  A sequence is "
-                "non-trivial when it hands out >= 2 block renders, >= 1 of them at render resolution.",
+                "non-trivial when it hands out >= 2 block renders, >= 1 of them at render resolution.  LAZY / CONFIGURABLE DECODERS: "
+                "JPEG stills (RGB, L, CMYK; quality 90..100; chroma subsampling 4:4:4 / 4:2:2 / 4:2:0; 8x8 .. 32x16, thorough up to "
+                "64x48) and two-frame MPO, generated by the driver, handed over as a file path, as a PIL image decoding lazily from "
+                "memory, and as a file-backed PIL image opened but never loaded; single renders at 1/1, 1/2, 1/4, 1/8 of the pixel "
+                "size (corpus: every scale x every hand-over) and at other sizes; sequences on one instance in every order "
+                "(thumbnail -> pixel size -> thumbnail ..., MPO frames via seek and the iterator, the same file through two kinds "
+                "of hand-over).  Expected pixels: a FRESH FULL decode of the same bytes (never through the instance under test), "
+                "identical at render resolution, converted + BOX-resampled off it (frames without an alpha channel, for every "
+                "sequence).  After every sequence / single render each PIL image the caller handed in must still have the size "
+                "and the pixels of a fresh full decode, frame by frame.",
         "samples": [R.describe(c) for c in cases[:1] + cases[-3:]] + [S.describe(c) for c in sequences[-2:]],
         "histogram": hist,
         "mismatches": mismatches,
@@ -381,7 +470,14 @@ def run(ctx):
             "what the sequence correspondence validates at run time, it is not derived from the source text",
             "decoding of multi-frame files (TIFF pages, GIF frames) is Pillow's: the expected pixels of a frame are those of an "
             "independent fresh decode of the same bytes positioned on that frame",
+            "lossy formats (JPEG, MPO): 'the image' is Pillow's own FULL decode of the same bytes (deterministic); off render "
+            "resolution 'the image at render resolution' of a frame without an alpha channel is that decode converted to RGB and "
+            "BOX-resampled by Pillow (model/BlockSeqSrc.v: dec at scale 1, resample) -- the library's own decode never enters the oracle",
+            "model/BlockSeqSrc.v: that the code never configures a source's decoder (full_policy) is a modelling statement validated at "
+            "run time (renders of draft-able sources at 1/2..1/8 scale, the caller's image examined afterwards), not derived from the source text",
         ],
         "trusted": ["harness/lexer.py", "impl driver captures _get_render_data's return value by wrapping it",
-                    "impl driver's own bookkeeping of the frame it selected (never read back from the instance under test)"],
+                    "impl driver's own bookkeeping of the frame it selected (never read back from the instance under test)",
+                    "impl driver's comparison of the caller's PIL image with a fresh full decode after a sequence (size and RGBA "
+                    "pixel lists, frame by frame; plain equality of integers, evaluated in Python)"],
     }
